@@ -118,9 +118,13 @@ PLANS = {
             ("h6-seam", 6, ["-hf", "1,2", "-seam", "-modes", "walk,random", "-reps", "12"]),
             ("h8-seam", 8, ["-hf", "0", "-seam", "-modes", "random", "-reps", "6"]),
             ("h18-tall", 18, ["-hf", "2", "-seam", "-modes", "tall"]),
+            ("h4-otherhash", 4, ["-hf", "0", "-modes", "counter"]),
+            ("h6-otherhash", 6, ["-hf", "0", "-modes", "counter"]),
         ],
         "thorough": [
             ("h4-real", 4, ["-hf", "0,1,2", "-modes", "walk,random,jumps", "-jumpmode", "all", "-reps", "40"]),
+            ("h4-otherhash", 4, ["-hf", "0,1,2", "-modes", "counter"]),
+            ("h8-otherhash", 8, ["-hf", "0,1", "-modes", "counter"]),
             ("h6-real", 6, ["-hf", "0,1,2", "-modes", "walk,random", "-reps", "10"]),
             ("h8-real", 8, ["-hf", "0", "-modes", "random", "-reps", "2"]),
             ("h6-seam", 6, ["-hf", "1", "-seam", "-modes", "random", "-reps", "200"]),
